@@ -33,6 +33,8 @@ open GorumsV.Tie.C07 GorumsV.C07
 #print axioms answered_le
 #print axioms tolerates_failures
 #print axioms incomplete_lists_failures
+#print axioms ctxErr_lists_failures
+#print axioms exhaustion_ctxErr_lists_failures
 #print axioms GorumsV.C13.status_roundtrip
 #print axioms GorumsV.C13.status_plain
 end Audit
